@@ -172,7 +172,7 @@ pub fn inputs_c18(r: &mut Rng, n: usize, _tier: &str, out: &mut dyn Write) {
                 let q = target as f64 / d as f64;
                 writeln!(out, "dmulf {} {}", dstr(d), h(q)).unwrap()
             }
-            22 => {
+            22 | 23 => {
                 // the product (or the intermediate integer product total_ns x scaled factor) sits at a word-size limit:
                 // 2^63, 2^64, 2^62, 2^53 ns, a few hundred ns either side, for "decimal" factors with few digits and random
                 // ones (seeded change C18-8: a 64-bit fast path guarded by a ROUNDED estimate of the product, overflowing
@@ -192,7 +192,7 @@ pub fn inputs_c18(r: &mut Rng, n: usize, _tier: &str, out: &mut dyn Write) {
                 }
                 writeln!(out, "dmulf {} {}", dstr(sd * d), h(if r.chance(1, 5) { -q } else { q })).unwrap()
             }
-            23..=27 => writeln!(out, "dmulf {} {}", dstr(total_10ky(r)), h(factor_f64(r))).unwrap(),
+            24..=27 => writeln!(out, "dmulf {} {}", dstr(total_10ky(r)), h(factor_f64(r))).unwrap(),
             32 => {
                 // a tiny duration times a huge factor whose product is still representable (or just not)
                 let lim = match r.below(3) { 0 => 3, 1 => 1000, _ => 20_000 };
